@@ -88,8 +88,52 @@ def tokens_of(src):
     return out
 
 
+_ALT_GROUPS = None
+
+
+def alt_groups():
+    """every ordered choice of the real grammar whose alternatives are all literals (operator spellings, draw modes,
+    keyword alternatives): a token that is one alternative is replaced by each of the others"""
+    global _ALT_GROUPS
+    if _ALT_GROUPS is None:
+        from parsimonious import expressions as E
+
+        from coco.b09.grammar import grammar
+
+        groups = []
+        seen = set()
+
+        def walk(e):
+            if id(e) in seen:
+                return
+            seen.add(id(e))
+            members = getattr(e, "members", ())
+            if isinstance(e, E.OneOf) and members and all(isinstance(m, E.Literal) for m in members):
+                g = tuple(m.literal for m in members)
+                if len(g) > 1 and g not in groups:
+                    groups.append(g)
+            for m in members:
+                walk(m)
+
+        for rule in grammar.values():
+            walk(rule)
+        _ALT_GROUPS = groups
+    return _ALT_GROUPS
+
+
 def mutants(src):
     lines = tokens_of(src)
+    for li, toks in enumerate(lines):
+        for i in range(1, len(toks)):
+            for g in alt_groups():
+                if toks[i] in g:
+                    for alt in g:
+                        if alt != toks[i]:
+                            t = list(toks)
+                            t[i] = alt
+                            new = [" ".join(x) for x in lines]
+                            new[li] = " ".join(t)
+                            yield "\n".join(new)
     for li, toks in enumerate(lines):
         for i in range(1, len(toks)):
             for kind in ("del", "dup", "swap"):
@@ -124,7 +168,9 @@ def extreme_inputs():
             "10 " + ":".join(["A=1"] * 300), "\n".join(f"{i} A=1" for i in range(1, 400)), "10 DATA " + "," * 100, "10 DATA &HFF,", "10 DATA ,&HFF",
             "10 DATA &HFF,,1\n20 READ A,B,C", "10 REM " + "\x7f\x80\xff", "10 PRINT \"\x00\"", "10 GOTO 10", "10 NEXT", "10 NEXT I,J,K", "10 RETURN",
             "10 FOR I=1 TO 2", "10 IF A THEN", "10 IF A=1 THEN ELSE", "10 ON A GOTO", "10 ON ERR GOTO 10:ON ERR GOTO 10", "10 A=.", "10 A=1E", "10 A=--1", "10 A=& H FF",
-            "10 A=&H FF", "10 POKE &HFFD8,0", "10 HCIRCLE(1,2),3,", "10 HCIRCLE(1,2),3,,", "10 PRINT@", "10 INPUT", "10 LINE INPUT \"X\";A", "10 DIM", "10 READ", "10 DATA", '10 PRINT "X" : REM RUN prog', "10 REM RUN prog", '10 PRINT "RUN prog"']
+            "10 A=&H FF", "10 FOR I=1 TO 2:FOR J=1 TO 2:NEXT I,J", "10 FOR I=1 TO 2:NEXT I,I", "10 FOR I=1 TO 2:FOR J=1 TO 2:FOR K=1 TO 2:NEXT J,K,I",
+            "10 FOR I=1 TO 2:FOR J=1 TO 2:NEXT J,I:NEXT", "10 FOR G=1 TO 2:FOR H=1 TO 2:FOR I=1 TO 2:FOR J=1 TO 2:NEXT J,I:NEXT:NEXT", "10 NEXT I:FOR I=1 TO 2", "10 FOR I=1 TO 2:NEXT J",
+            "10 POKE &HFFD8,0", "10 HCIRCLE(1,2),3,", "10 HCIRCLE(1,2),3,,", "10 PRINT@", "10 INPUT", "10 LINE INPUT \"X\";A", "10 DIM", "10 READ", "10 DATA", '10 PRINT "X" : REM RUN prog', "10 REM RUN prog", '10 PRINT "RUN prog"']
     return srcs
 
 
@@ -254,14 +300,23 @@ def regex_lemmas(ctx, tier):
     ctx.encode("procbank.PROCEDURE_START_PREFIX", procbank.PROCEDURE_START_PREFIX.pattern)
     name = z3.String("procname")
     anyc = z3.Full(z3.ReSort(z3.StringSort()))
-    passes = z3.InRe(name, z3.Concat(rxsmt.lang(PROCNAME_REGEX), anyc))  # .match = prefix match
+    csrc = repo_source("coco/b09/compiler.py")
+    if "PROCNAME_REGEX.fullmatch(" in csrc:
+        passes = z3.InRe(name, rxsmt.lang(PROCNAME_REGEX))
+        how = "fullmatch"
+    elif "PROCNAME_REGEX.match(" in csrc:
+        passes = z3.InRe(name, z3.Concat(rxsmt.lang(PROCNAME_REGEX), anyc))  # .match = prefix match
+        how = "match (prefix)"
+    else:
+        raise HarnessError("compiler.py no longer tests the procedure name with PROCNAME_REGEX.match/fullmatch; the lemma must be re-derived")
+    ctx.bounds["procname_test_as_read_from_source"] = how
     header = z3.Concat(z3.StringVal("procedure "), name)
     refound = z3.InRe(header, rxsmt.lang(procbank.PROCEDURE_START_PREFIX))
     word = z3.InRe(name, z3.Plus(z3.Union(z3.Range("0", "9"), z3.Range("a", "z"), z3.Range("A", "Z"), z3.Re("_"))))
     ctx.stats["obligations"] += 1
-    v, m = smt.check([passes, z3.Length(name) <= 6, z3.Length(name) >= 1, z3.Or(z3.Not(refound), z3.Not(word))], 30000, True)
+    v, m = smt.check([passes, z3.Length(name) <= 6, z3.Length(name) >= 1, z3.Not(refound)], 30000, True)
     ctx.stats[v] += 1
-    ctx.sample({"lemma": "a procedure name accepted by PROCNAME_REGEX.match gives a header the bank re-finds with the same name", "verdict": v})
+    ctx.sample({"lemma": f"a procedure name accepted by PROCNAME_REGEX.{how} gives a header the bank re-finds with the same name", "verdict": v})
     if v == "sat":
         pn = rxsmt.z3str(m.eval(name, True).as_string())
         status, detail = guarded('10 PRINT "X"\n', dict(FULL, procname=pn))
